@@ -27,10 +27,14 @@ PropFails(t) ==
   (IF t.escaped \/ t.hang \/ t.status >= 500 \/ t.status < 200 THEN {"ClientErrorOnly"} ELSE {})
   \cup (IF t.kind = "roundtrip" /\ ~(t.status = 200 /\ NormForms(t.forms) = Expected(NormFields(t.fields)).forms
                                     /\ NormFiles(t.files) = Expected(NormFields(t.fields)).files) THEN {"RoundTrip"} ELSE {})
-  \cup (IF t.kind # "raw" /\ t.status = 200 /\ ~DeliveredOK(t) THEN {"DeliveredTerminated"} ELSE {})
+  \cup (IF t.kind \notin {"raw", "urlenc"} /\ t.status = 200 /\ ~DeliveredOK(t) THEN {"DeliveredTerminated"} ELSE {})
   \cup (IF t.status = 200 /\ TextBytes(t.forms, 1) > t.maxRead THEN {"TextBudget"} ELSE {})
+  \* urlencoded form text (kind "urlenc", fields = the submitted pairs): larger than the threshold => refused (413), else complete
+  \cup (IF t.kind = "urlenc" /\ Len(t.body) > t.maxRead /\ t.status # 413 THEN {"FormTextRefused"} ELSE {})
+  \cup (IF t.kind = "urlenc" /\ Len(t.body) <= t.maxRead /\
+           ~(t.status = 200 /\ NormForms(t.forms) = Expected(NormFields(t.fields)).forms) THEN {"FormTextComplete"} ELSE {})
 MechOK(t) ==
-  t.kind = "raw" \/ ~t.full \/      \* full: the handler read both request.forms and request.files
+  t.kind \in {"raw", "urlenc"} \/ ~t.full \/      \* full: the handler read both request.forms and request.files
   LET r == ParseForm(t.body, t.maxRead) IN
   /\ ~t.escaped
   /\ (r.err = "" => (t.status = 200 /\ NormForms(t.forms) = r.forms /\ NormFiles(t.files) = r.files))
